@@ -517,6 +517,7 @@ package table
 //@   modifies nothing
 //@   ensures result == (ec.GetTypes() < bgp.EC_TYPE_NON_TRANSITIVE_TWO_OCTET_AS_SPECIFIC)
 //@ func CanImportToVrf
+//@   pure
 //@   requires v != nil && path != nil
 //@   requires forall k int :: 0 <= k && k < len(path.GetExtCommunities()) ==> path.GetExtCommunities()[k] != nil
 //@   claims at-return step post
